@@ -15,6 +15,9 @@ From MV Require Import Opt.OptAgreeTop.
 From MV Require Import Opt.OptAgreeBlock.
 From MV Require Import Opt.OptAgreeQuoted.
 From MV Require Import Opt.OptAgreeAll.
+From MV Require Import Opt.OptMarks.
+From MV Require Import Opt.OptComments.
+From MV Require Import Opt.OptNul.
 Import ListNotations.
 Open Scope N_scope.
 
@@ -84,6 +87,41 @@ Theorem C07_yaml_agree_literal_folded : forall vsp folded h lead indent first mo
   OptAgree.value_spec (VBlock vsp folded h lead indent first more) trail.
 Proof. exact value_spec_block. Qed.
 Print Assumptions C07_yaml_agree_literal_folded.
+
+(* ---- Round 2: marks, clone, has_comments ---- *)
+
+(* StreamBuffer bookkeeping: after forwarding k characters get_position() is (k, line of k,
+   column of k) where the line is the number of recognised line breaks before k (LF, NEL, LS, PS,
+   CR not followed by LF) and the column the number of non-BOM characters since the last one.
+   Every TokenizeError of the tokenizer carries stream.get_position() as its problem mark. *)
+Theorem C07_mark_positions : forall (text : str) (k : nat) (s : stream),
+  forward (new_stream text) k = Ok s ->
+  s_idx s = N.of_nat k /\ s_line s = line_of (text ++ CHARS_END) k /\
+  s_col s = col_of (text ++ CHARS_END) k.
+Proof. exact forward_positions. Qed.
+Print Assumptions C07_mark_positions.
+
+(* TokenizeError.clone (used by _to_tokens when an offset is given): the index is kept, line and
+   column are shifted by exactly the offsets (on every line, not only the first) *)
+Theorem C07_clone_positions : forall text lo co p,
+  error_mark text lo co p =
+  let '(i, l, c) := error_mark text 0 0 p in (i, l + lo, c + co).
+Proof. exact clone_positions. Qed.
+Print Assumptions C07_clone_positions.
+
+(* State.has_comments is only written: the instrumented tokenizer that also computes the flag
+   returns the same pairs and the same errors as the plain one *)
+Theorem C07_has_comments_erasure : forall text : str,
+  (do x <- options_to_items_state text; Ok (fst x)) = options_to_items text.
+Proof. exact options_to_items_state_erase. Qed.
+Print Assumptions C07_has_comments_erasure.
+
+(* an embedded NUL is the end of the input: whatever follows it is never looked at (no premise on
+   a or b; a may itself contain NULs, the first one decides) *)
+Theorem C07_nul_truncates : forall a b : str,
+  options_to_items (a ++ 0 :: b) = options_to_items a.
+Proof. exact nul_truncates. Qed.
+Print Assumptions C07_nul_truncates.
 
 (* ---- non-vacuity ---- *)
 
